@@ -98,12 +98,12 @@ class C18(ProgProp):
         levels = []
         for i in range(d):
             lv = {"how": "yield" if rng.random() < 0.8 else "sync", "pre": rng.randint(0, 2) if rng.random() < 0.3 else 0,
-                  "catch": rng.choice([None, None, None, "bare", "same"]), "siblings": rng.randint(0, 2) if rng.random() < 0.3 else 0,
+                  "catch": rng.choice([None, None, None, "bare", "same", "await_then_reraise"]), "siblings": rng.randint(0, 2) if rng.random() < 0.3 else 0,
                   "sib_first": rng.random() < 0.5, "container": rng.choice(["t", "l", "d"])}
             levels.append(lv)
         return {"kind": "tb", "depth": d, "levels": levels, "raise_after": rng.randint(0, 2),
                 "swallow_at": rng.randint(0, d - 2) if rng.random() < 0.25 else None,
-                "swallow_then": rng.choice(["yield", "value"]),
+                "swallow_then": rng.choice(["yield", "value"]), "base_exc": rng.random() < 0.2,
                 "stack_at": rng.randint(0, d - 1), "conv": rng.choice(["call", "value"])}
 
     def sample(self, case, r):
@@ -163,8 +163,8 @@ class C18(ProgProp):
             nitem[0] += 1
             return real.SimItem(B.current[nitem[0] % 2], "tb.i%d" % nitem[0], "k", B)
 
-        class Boom(Exception):
-            pass
+        # the failure is an ordinary Exception or a user-defined BaseException subclass
+        Boom = type("Boom", ((BaseException,) if case.get("base_exc") else (Exception,)), {})
         src = []
         src.append("@A.asynq()\ndef sibling(n):\n    for _ in range(n):\n        yield item()\n    return n\n")
         src.append("@A.asynq()\ndef swallower(fut):\n    try:\n        yield fut\n    except Boom:\n        pass\n    return 'swallowed'\n")
@@ -211,6 +211,9 @@ class C18(ProgProp):
                         body.append(ind + "v = yield lvl_%d.asynq()" % (i + 1))
                 if lv.get("catch") == "bare":
                     body += ["    except Boom:", "        raise"]
+                elif lv.get("catch") == "await_then_reraise":
+                    # catch the child's error, await something else, then re-raise it
+                    body += ["    except Boom:", "        yield item()", "        raise"]
                 elif lv.get("catch") == "same":
                     body += ["    except Boom as e:", "        raise e"]
                 body.append("    return v")
